@@ -56,7 +56,7 @@ Proof. rewrite yesno_table. destruct (str_eqb key s_yes), (str_eqb key s_no); re
 Lemma help_table key : input_entry help_screen_spec key = ([], RClose).
 Proof. reflexivity. Qed.
 
-Lemma error_table key : input_entry error_dialog_spec key = ([SExit], RNone).
+Lemma error_table key : input_entry error_dialog_spec key = ([SSysExit], RNone).
 Proof. reflexivity. Qed.
 
 Lemma password_table key :
@@ -117,6 +117,12 @@ Qed.
 
 Lemma length_upd {A} (l : list A) : forall k (f : A -> A), length (upd_nth l k f) = length l.
 Proof. induction l as [|a l IH]; intros [|k] f; cbn [upd_nth length]; auto. Qed.
+
+Lemma nth_upd_cases {A} (l : list A) : forall k x (f : A -> A) d,
+  nth x (upd_nth l k f) d = f (nth x l d) \/ nth x (upd_nth l k f) d = nth x l d.
+Proof.
+  induction l as [|a l IH]; intros [|k] [|x] f d; cbn [upd_nth nth]; auto.
+Qed.
 
 Section Run.
   Variable specs : nat -> screen_spec.
@@ -221,25 +227,53 @@ Section Run.
     ex (8 + f) (CProg (call_input specs scr key)) s = (ONormal, after_input scr key None RClose s).
   Proof. intros E. apply call_input_plain. rewrite E. reflexivity. Qed.
 
-  (* ---- the first refresh() gives the dialog its `answer` attribute (encoding G1) ---- *)
+  (* ---- refresh() of the dialog: one T_REFRESH event, the answer is left alone (it exists from __init__ on) ---- *)
   Lemma yesno_refresh d f s :
-    specs (sd_scr d) = yes_no_dialog_spec -> sd_scr d < length (st_scr (ust s)) ->
-    exists s', ex (10 + f) (CProg (call_refresh specs d)) s = (ONormal, s') /\
+    specs (sd_scr d) = yes_no_dialog_spec ->
+    exists s', ex (6 + f) (CProg (call_refresh specs d)) s = (ONormal, s') /\
       trace s' = EUser T_REFRESH [sd_id d; sd_scr d; sd_args d] [] :: trace s /\
       st_stack (ust s') = st_stack (ust s) /\
-      ss_answer (scr_of (ust s') (sd_scr d)) =
-        (if (ss_n_refresh (scr_of (ust s) (sd_scr d)) =? 0)%nat then AnsOther else ss_answer (scr_of (ust s) (sd_scr d))).
+      ss_answer (scr_of (ust s') (sd_scr d)) = ss_answer (scr_of (ust s) (sd_scr d)).
   Proof.
-    intros E H. unfold call_refresh. cbn [Nat.add]. rewrite exec_rd. cbv zeta. rewrite E.
-    cbn [sc_refresh yes_no_dialog_spec].
-    destruct (ss_n_refresh (scr_of (ust s) (sd_scr d))) as [|n] eqn:En.
-    - unfold wr, ev, run_cmds, init_answer. cbn [do_scmds do_scmd Nat.ltb Nat.leb]. unfold wr. cbn [exec user_event Nat.eqb].
-      eexists. split; [reflexivity|].
-      cbn [trace emit set ust st_stack upd_scr]. repeat split.
-      unfold scr_of, upd_scr. cbn [st_scr set]. rewrite nth_upd_same; [reflexivity|]. rewrite length_upd. exact H.
-    - unfold wr, ev, run_cmds, init_answer. cbn [do_scmds do_scmd Nat.ltb Nat.leb]. cbn [exec user_event Nat.eqb].
-      eexists. split; [reflexivity|]. cbn [trace emit set ust st_stack upd_scr]. repeat split.
-      unfold scr_of, upd_scr. cbn [st_scr set]. rewrite nth_upd_same; [reflexivity | exact H].
+    intros E. unfold call_refresh. cbn [Nat.add]. rewrite exec_rd. cbv zeta. rewrite E.
+    cbn [sc_refresh yes_no_dialog_spec]. unfold wr, ev, run_cmds. cbn [do_scmds exec user_event].
+    eexists. split; [reflexivity|]. cbn [trace emit set ust st_stack upd_scr]. repeat split.
+    unfold scr_of, upd_scr. cbn [st_scr set].
+    destruct (nth_upd_cases (st_scr (ust s)) (sd_scr d) (sd_scr d)
+                (fun s0 : scrst => s0 <| ss_n_refresh := S (ss_n_refresh (nth (sd_scr d) (st_scr (ust s)) (scr0 default_spec))) |>)
+                (scr0 default_spec)) as [R|R]; rewrite R; reflexivity.
+  Qed.
+
+  (* ---- ErrorDialog: input() leaves with SystemExit: one T_INPUT event, no action, no ExceptionSignal ---- *)
+  Lemma error_input scr key f s :
+    specs scr = error_dialog_spec ->
+    exists s', ex (8 + f) (CProg (call_input specs scr key)) s = (OThrow XSysExit, s') /\
+      trace s' = EUser T_INPUT [scr; ss_input_args (scr_of (ust s) scr)] key :: trace s /\
+      st_stack (ust s') = st_stack (ust s).
+  Proof.
+    intros E. unfold call_input. rewrite E. cbn [sc_input error_dialog_spec assoc_str sc_input_default fst snd].
+    unfold rd, wr, evt, run_cmds. cbn [Nat.add]. cbn [exec do_scmds do_scmd user_event].
+    eexists. split; [reflexivity|]. split; reflexivity.
+  Qed.
+
+  Lemma exec_try f (p h : sprog) s :
+    ex (S f) (CProg (PTry p h)) s =
+    let '(o, s1) := ex f (CProg p) s in match o with OThrow XError => ex f (CProg h) s1 | _ => (o, s1) end.
+  Proof. reflexivity. Qed.
+
+  Lemma exec_wr f (g : sstate -> sstate) s : ex (S (S f)) (CProg (wr g)) s = (ONormal, s <| ust := g (ust s) |>).
+  Proof. reflexivity. Qed.
+
+  Lemma error_process scr key f s :
+    specs scr = error_dialog_spec ->
+    exists s', ex (12 + f) (CProg (process_input specs scr key)) s = (OThrow XSysExit, s') /\
+      trace s' = EUser T_INPUT [scr; ss_input_args (scr_of (ust s) scr)] key :: trace s /\
+      st_stack (ust s') = st_stack (ust s).
+  Proof.
+    intros E. unfold process_input. cbn [Nat.add]. rewrite exec_seq, exec_wr.
+    rewrite exec_seq, exec_try, exec_seq.
+    destruct (error_input scr key f (s <| ust := ust s <| st_rb := false |> |>) E) as [s' [R [Ht Hs]]].
+    cbn [Nat.add] in R. rewrite R. eexists. split; [reflexivity|]. split; [exact Ht | exact Hs].
   Qed.
 
   (* ---- the quit protocol: one unfolding of process_input_result for the quit key ---- *)
@@ -271,6 +305,20 @@ Section Run.
     intros Hst Hq. unfold process_input_result, with_top. cbn [Nat.add]. rewrite exec_rd, Hst, exec_rd, Hq. reflexivity.
   Qed.
 End Run.
+
+(* ================================================================ the `answer` attribute before any callback *)
+Lemma initial_answer specl typed quit run_empty : forall i sp,
+  nth_error specl i = Some sp -> ss_answer (scr_of (sstate0 specl typed quit run_empty) i) = sc_answer0 sp.
+Proof.
+  unfold scr_of, sstate0. cbn [st_scr].
+  induction specl as [|a l IH]; intros [|i] sp H; cbn [nth_error] in H; try discriminate H.
+  - inversion H; subst. reflexivity.
+  - cbn [map nth]. apply IH. exact H.
+Qed.
+
+Lemma adv_answer0 k :
+  sc_answer0 (adv_spec k) = match k with KYesNo | KPassword => AnsOther | _ => AnsNoAttr end.
+Proof. destruct k; reflexivity. Qed.
 
 Lemma str_eqb_iff k k' : str_eqb k k' = true <-> k = k'.
 Proof. split; [apply str_eqb_eq | intros ->; apply str_eqb_refl]. Qed.
